@@ -19,7 +19,7 @@ BUDGET = {
     "quick": {"runs": 550, "time_cap": 150, "determinism_sample": 12, "shrink_runs": 120},
     "thorough": {"runs": 9000, "time_cap": 1500, "determinism_sample": 60, "shrink_runs": 300},
 }
-BOUNDS = "1-12 generated lines per session (plus probe lines), <=3 statements per line, names from a pool of 8 variables (3 of them shadow builtin names) and 3 functions, lines < 250 characters"
+BOUNDS = "quick: 1-12 (thorough: 1-20) generated lines per session (plus probe lines), <=3 statements per line, names from a pool of 8 variables (3 of them shadow builtin names) and 3 functions, lines < 250 characters"
 RULE = ("each run = one REPL session: a seeded history of definitions, redefinitions, assignments, function definitions "
         "(closures, recursion), uses/prints, bare expressions and continued lines, with failing lines injected at seeded "
         "positions: parser-rejected, compiler-rejected (undefined name, after redefining live names, inside a function body, "
@@ -214,7 +214,7 @@ def generate(rng, tier, idx):
     env = {}
     lines = []     # logical lines: dict(kind, text, cut, phys=[physical lines])
     stats = {}
-    n = rng.range(1, 12)
+    n = rng.range(1, 20 if tier == "thorough" else 12)
     nfail = 0
     for i in range(n):
         fail_p = 28 if i > 0 else 10
